@@ -213,7 +213,9 @@ class Gen:
             "echo_id": False,
             "hooks": self.on("hooks") and ch.chance(1, 2, "hooks"),
             # the template comes from the `template` attribute or from the user's get_template() (one more user callback)
-            "tmpl_via": "get_template" if ch.chance(1, 4, "tmpl_via") else "template",
+            # (not in assets mode: there the classes inherit from each other, and a class that inherits `template` and
+            # defines get_template() is rightly refused by the library)
+            "tmpl_via": "get_template" if (ch.chance(1, 4, "tmpl_via") and not self.P.get("assets")) else "template",
             "js": None, "css": None, "media_js": [], "media_css": [],
         }
         if self.on("provide"):
